@@ -310,13 +310,24 @@ Definition forward_insert (gp : path) (s : side) (ins_len : nat) (c : cursor) : 
   | _, _ => Crash
   end.
 
+(** Two places of internal_cursors.py exist in two variants; which one the code under test has is read
+    from its source by the harness on every run (props/C06.py: detect_variant), and every theorem is
+    stated for an arbitrary variant or names the one it is about.
+    - [wrap_fixed]: [_forward_wrap.fwd_block]'s third case anchors at [rng.start] (repaired) instead of
+      [blk_rng.start] (as found);
+    - [move_asserts]: the block branch of [_forward_move] checks its end points with [assert]
+      (AssertionError, as found) instead of raising InvalidCursorError (proposed repair). *)
+Record variant := { wrap_fixed : bool; move_asserts : bool }.
+Definition code_as_found : variant := {| wrap_fixed := false; move_asserts := true |}.
+Definition code_now : variant := {| wrap_fixed := true; move_asserts := true |}.
+
 (** [Block._forward_wrap(p, wrap_attr)]  (376-406).
     [fixed = false]: the code as it stands — the third case returns [(attr, blk_rng.start)];
     [fixed = true]: the repaired code returns [(attr, rng.start)] (as [fwd_node] does). *)
-Definition wrap_inner_anchor_idx (fixed : bool) (blk_lo rng_lo : nat) : nat :=
-  if fixed then rng_lo else blk_lo.
+Definition wrap_inner_anchor_idx (fixed : variant) (blk_lo rng_lo : nat) : nat :=
+  if wrap_fixed fixed then rng_lo else blk_lo.
 
-Definition forward_wrap (fixed : bool) (p : path) (a : attr) (lo hi : nat) (wa : attr)
+Definition forward_wrap (fixed : variant) (p : path) (a : attr) (lo hi : nat) (wa : attr)
   : cursor -> res cursor :=
   let n_delta := (hi - lo) - 1 in                       (* len(rng) - 1, rng non-empty *)
   local_forward p a
@@ -390,7 +401,7 @@ Definition child_node (t : tree) (p : path) (a : attr) (i : nat) : res path :=
   | Some n => if i <? length (kids n a) then Ok (p ++ [(a, i)]) else Invalid
   end.
 
-Definition forward_move (t : tree) (bp : path) (ba : attr) (lo hi : nat) (gp0 : path) (s0 : side)
+Definition forward_move (fixed : variant) (t : tree) (bp : path) (ba : attr) (lo hi : nat) (gp0 : path) (s0 : side)
            (c : cursor) : res cursor :=
   let '(gp, s) := move_target bp ba lo hi gp0 s0 in
   match gap_path_of gp s with
@@ -412,20 +423,21 @@ Definition forward_move (t : tree) (bp : path) (ba : attr) (lo hi : nat) (gp0 : 
               | Some (a1, i1), Some (a2, i2) =>
                   if path_eqb (pinit s1) (pinit s2) && attr_eqb a1 a2 && (i1 <=? i2)
                   then Ok (CBlock (pinit s1) a1 i1 (i2 + 1))      (* _attr=attr1 *)
-                  else Crash                                       (* AssertionError *)
+                  else if move_asserts fixed then Crash          (* AssertionError *)
+                       else Invalid                              (* repaired: InvalidCursorError *)
               | _, _ => Crash
               end))))
       end
   end.
 
 (** forwarding function returned by each edit; [t] = the tree the edit was applied to *)
-Definition fwd_edit (fixed : bool) (e : edit) (t : tree) (c : cursor) : res cursor :=
+Definition fwd_edit (fixed : variant) (e : edit) (t : tree) (c : cursor) : res cursor :=
   match e with
   | EReplace p a lo hi nodes => forward_replace p a lo hi (length nodes) c
   | EDelete p a lo hi _ => forward_replace p a lo hi 0 c
   | EInsert gp s nodes => forward_insert gp s (length nodes) c
   | EWrap p a lo hi _ wa _ => forward_wrap fixed p a lo hi wa c
-  | EMove p a lo hi gp s _ => forward_move t p a lo hi gp s c
+  | EMove p a lo hi gp s _ => forward_move fixed t p a lo hi gp s c
   | ENop => Ok c
   end.
 
@@ -439,7 +451,7 @@ Fixpoint apply_chain (es : list edit) (t : tree) : option tree :=
   | e :: es' => match apply_edit e t with Some t1 => apply_chain es' t1 | None => None end
   end.
 
-Fixpoint fwd_chain (fixed : bool) (es : list edit) (t : tree) (c : cursor) : res cursor :=
+Fixpoint fwd_chain (fixed : variant) (es : list edit) (t : tree) (c : cursor) : res cursor :=
   match es with
   | [] => Ok c
   | e :: es' =>
@@ -563,7 +575,7 @@ Definition rcursor := (nat * cursor)%type.     (* (id of the proc the cursor poi
 Record pstep := { ps_parent : nat; ps_id : nat; ps_tree : tree (* parent's tree *); ps_edits : list edit }.
 
 (** forwarding function of one scheduling step: root check, then the composed edit forwardings *)
-Definition step_forward (fixed : bool) (st : pstep) (rc : rcursor) : res rcursor :=
+Definition step_forward (fixed : variant) (st : pstep) (rc : rcursor) : res rcursor :=
   if fst rc =? ps_parent st then
     match ps_edits st with
     | [] => Ok (ps_id st, snd rc)
@@ -581,5 +593,5 @@ Fixpoint collect (chain : list pstep) (self_id : nat) (cur_id : nat) : list pste
                        else collect rest self_id cur_id
        end.
 
-Definition proc_forward (fixed : bool) (chain : list pstep) (self_id : nat) (rc : rcursor) : res rcursor :=
+Definition proc_forward (fixed : variant) (chain : list pstep) (self_id : nat) (rc : rcursor) : res rcursor :=
   fold_left (fun acc st => rbind acc (step_forward fixed st)) (rev (collect chain self_id (fst rc))) (Ok rc).
